@@ -144,11 +144,22 @@ def run(report, tier, seed):
             cols.append([0] * size if rng.random() < 0.3 else [rng.choice([-1, 0, 0, 1, 2]) for _ in range(size)])
         if rng.random() < 0.05:
             cols = cols[:-1] or cols             # length mismatch
-        rc, rn = rng.random() < 0.4, rng.random() < 0.5
+        # explicit flags (None: take the global option) under a random global setting
+        g_rc, g_rn = rng.random() < 0.3, rng.random() < 0.7
+        e_rc, e_rn = rng.choice([None, False, True]), rng.choice([None, False, True])
+        rc = g_rc if e_rc is None else e_rc
+        rn = g_rn if e_rn is None else e_rn
         tnames = tuple(f"q{v}" for v in names)
         arrs = [numpy.array(c, dtype=numpy.int64).reshape(shape) for c in cols]
         try:
-            p = numpoly.polynomial_from_attributes(rows, arrs, tnames, retain_coefficients=rc, retain_names=rn)
+            with numpoly.global_options(retain_coefficients=g_rc, retain_names=g_rn):
+                p = numpoly.polynomial_from_attributes(rows, arrs, tnames, retain_coefficients=e_rc, retain_names=e_rn)
+            if not rc and any(any(r) and not any(c) for r, c in zip(rows, cols)) and len(rows) == len(cols):
+                kept = [tuple(r) for r in p.exponents.tolist()]
+                if any(tuple(r) in kept for r, c in zip(rows, cols) if any(r) and not any(c)) and len(set(map(tuple, rows))) == len(rows):
+                    viol.append(("keeps-zero-term", f"polynomial_from_attributes(rows={rows}, cols={cols}, retain_coefficients={e_rc}) under global "
+                                 f"retain_coefficients={g_rc} keeps an all-zero non-constant term", {"rows": rows, "cols": cols, "names": names,
+                                                                                                 "explicit": [e_rc, e_rn], "global": [g_rc, g_rn]}))
             exp = lay_coq(core.poly_layout(p))
             bad = wf_facts(p)
             if bad:
@@ -173,7 +184,8 @@ def run(report, tier, seed):
             exp = f"(LErr {core.err_enum(exc)})"
         term = (f"chk_layout (zfrom_attributes {core.cbool(rc)} {core.cbool(rn)} {core.cnats(names)} {core.cnats(shape)} "
                 f"{core.cseq(core.cnats(r) for r in rows)} {core.cseq(core.cseq(core.cz(v) for v in c) for c in cols)}) {exp}")
-        cc.add(term, {"kind": "from_attributes", "rows": rows, "cols": cols, "names": names, "retain": [rc, rn], "impl": exp[:300]})
+        cc.add(term, {"kind": "from_attributes", "rows": rows, "cols": cols, "names": names, "retain": [rc, rn],
+                      "explicit": [e_rc, e_rn], "global": [g_rc, g_rn], "impl": exp[:300]})
     failed, errors = cc.run() if tr_ok else ([], [])
     report.coverage.update({
         "evaluations": n_ops + n_attr, "distinct_nontrivial": len(nontrivial),
